@@ -313,7 +313,7 @@ TEXTS17 = ["+", "", "fn", "é→", "a\"b", "->", "\\", "let mut", "\n", "😀"]
 
 DEFECTS17 = ["struct", "union", "norepr", "repr_u16", "repr_c", "repr_two", "repr_dup", "fields_named", "fields_tuple",
              "discr", "discr_const", "discr_shift", "discr_paren", "discr_sum", "attr_path", "attr_nv", "attr_bad", "attr_dup", "attr_dup_after",
-             "combo"]
+             "attr_two_args", "attr_three_args", "combo"]
 
 
 def gen_enum(rng, wellformed, nmax, defect=None):
@@ -364,6 +364,9 @@ def gen_enum(rng, wellformed, nmax, defect=None):
         variants[v][2].append(("n",))
     elif defect == "attr_bad":
         variants[v][2].append(("b",))
+    elif defect in ("attr_two_args", "attr_three_args"):
+        # several literals in one annotation: which one would be the static text?
+        variants[v][2] = [("b", '"+", "-"' if defect == "attr_two_args" else '"let", "var", "const"')]
     elif defect == "attr_dup":
         variants[v][2] = [("l", "a"), ("l", "b")]
     else:
@@ -378,7 +381,7 @@ def enum_desc(d):
     reprs = "/".join("+".join(a) for a in d["reprs"]) if d["reprs"] else "-"
     vs = []
     for (f, disc, attrs) in d["variants"]:
-        a = ",".join(("l" + hexs(x[1])) if x[0] == "l" else x[0] for x in attrs) or "-"
+        a = ",".join(("l" + hexs(x[1])) if x[0] == "l" else x[0] for x in attrs) or "-"   # ("b", args) is a malformed argument list like ("b",)
         vs.append(f"{f}/{'-' if disc is None else disc}:{a}")
     return f"enum {d['kind']} {reprs} {';'.join(vs)}"
 
@@ -402,6 +405,8 @@ def enum_rust(name, d):
                 lines.append("    #[static_text]")
             elif a[0] == "n":
                 lines.append('    #[static_text = "x"]')
+            elif len(a) > 1:
+                lines.append(f"    #[static_text({a[1]})]")
             else:
                 lines.append("    #[static_text(5)]")
         v = f"    V{i}"
@@ -450,8 +455,22 @@ def build_crate17(name, defs, with_main):
                 }}
             }} else if r.is_ok() {{ ok = false; }}
         }}
-        if std::panic::catch_unwind(|| <E{i} as Syntax>::from_raw(RawSyntaxKind(u32::MAX))).is_ok() {{ ok = false; }}
         println!("E{i} accept {{}} {{}} {{}}", n, ok, texts.join(","));
+    }}
+"""
+        # second pass: raw values far outside the range (sign bit, byte / half-word wrap-arounds of valid values).  A conversion
+        # that lets one of them through produces an invalid enum value: in a debug build rustc's own check then aborts the
+        # process, so everything else has been printed before and every enum announces itself first.
+        for i, d in enumerate(defs):
+            n = len(d["variants"])
+            src += f"""    {{
+        let n: u32 = {n};
+        println!("B{i} begin");
+        let mut bad: Vec<u32> = vec![];
+        for raw in [u32::MAX, 0x7FFF_FFFFu32, 0x8000_0000, 0x8000_0001, 0xFFFF_FFFE, (n - 1) | 0x8000_0000, (n - 1) + 256, (n - 1) + 65536, n + (1 << 24), n.wrapping_neg()] {{
+            if raw >= n && std::panic::catch_unwind(|| <E{i} as Syntax>::from_raw(RawSyntaxKind(raw))).is_ok() {{ bad.push(raw); }}
+        }}
+        println!("B{i} done {{:?}}", bad);
     }}
 """
         src += "}\n"
@@ -505,6 +524,27 @@ def probe_c17(prop, seed, tier):
         if line.startswith("E"):
             k, rest = line.split(" ", 1)
             table[int(k[1:])] = rest.strip()
+    # the far-out-of-range pass
+    begun, done = set(), {}
+    for line in (res["run"] or "").split("\n"):
+        if line.startswith("B"):
+            k, rest = line.split(" ", 1)
+            if rest.startswith("begin"):
+                begun.add(int(k[1:]))
+            elif rest.startswith("done"):
+                done[int(k[1:])] = rest[5:].strip()
+    for i, d in enumerate(table_defs):
+        what = None
+        if i in begun and i not in done:
+            what = (f"from_raw of a raw value far outside 0..{len(d['variants'])} neither panicked nor returned: the process was aborted "
+                    f"(an invalid enum value was produced) ({enum_desc(d)})")
+        elif i in done and done[i] != "[]":
+            what = f"from_raw accepts the out-of-range raw values {done[i]} ({enum_desc(d)})"
+        elif i not in begun and begun and i == max(begun) + 1 and max(begun) in done:
+            what = f"the probe stopped before the out-of-range pass of {enum_desc(d)}"
+        if what and len([o for o in out["oracle"] if "out-of-range" in o["what"] or "far outside" in o["what"]]) < 3:
+            path = R.write_replay(prop, f"oracle-range{i}", [enum_desc(d)], [what] + enum_rust(f"E{i}", d))
+            out["oracle"].append({"case": i, "prop": prop, "what": what, "line": 0, "n": 1, "replay": path})
     distinct = set()
     for i, d in enumerate(table_defs):
         impl = table.get(i, "<no output>")
